@@ -40,7 +40,7 @@ CHECKS = {
             "Trusted: map model, sanitizers."),
     "C05": ("hist", "exploration", "2.C05",
             "reference-model monitor with an exact (dyadic) and a rounding weight alphabet",
-            "Both weighted classes; with dyadic weights k/8 every partial sum is exact so getTotalWeight must equal the model sum exactly; with random doubles a relative "
+            "Both weighted classes; with dyadic weights k/8 every partial sum is exact so getTotalWeight must equal the model sum exactly (half of these histories scaled as a whole by 2^-67 .. 2^900, still exact); with random doubles a relative "
             "tolerance applies. getEdgeWeight (both modes, both orientations), getWeightMatrix and the structural observers after every call; setEdgeWeight on present and absent "
             "edges and in descending orientation is counted. One rounding-mode history in seven uses weights above DBL_MAX/2 (the model sum stays a finite double): an "
             "intermediate value narrower than the long double total shows as inf/NaN. Rejected calls inside histories as in C01.",
